@@ -255,6 +255,31 @@ class Func(object):
                 if ini.get('e') is not None:
                     ini['e'] = self._adopt(ini['e'], None)
                 self.inits.append(ini)
+            # reference aliases: `T & x = _member;` (or `= _a._b`) makes x another name for that member for the rest of the function.  Every use of x carries the id of the member
+            # expression (alias_i); msa.ast.strip_casts() follows it, so a rule that asks "which object is this call made on" sees the member, as if the alias had not been introduced.
+            al = {}
+            for n in self.nodes.values():
+                if n['k'] == 'VarDecl' and n['ch'] and n.get('d') is not None:
+                    t = self.types[n['t']] if n.get('t') is not None and n['t'] >= 0 else ''
+                    if t.rstrip().endswith('&') and not t.rstrip().endswith('&&'):
+                        x = n['ch'][0]
+                        while x is not None and (x['k'].endswith('CastExpr') or x['k'] == 'ParenExpr') and x['ch']:
+                            x = x['ch'][0]
+                        y, pure = x, x is not None and x['k'] == 'MemberExpr'
+                        while pure and y['k'] == 'MemberExpr':
+                            if not y['ch']:
+                                break
+                            y = y['ch'][0]
+                            while y['k'].endswith('CastExpr') or y['k'] == 'ParenExpr':
+                                y = y['ch'][0]
+                            pure = y['k'] in ('MemberExpr', 'CXXThisExpr')
+                        if pure:
+                            al[n['d']] = x['i']
+                            x['alias_binding'] = 1
+            if al:
+                for n in self.nodes.values():
+                    if n['k'] == 'DeclRefExpr' and n.get('d') in al:
+                        n['alias_i'] = al[n['d']]
             if _META == 'rename':
                 # checker self-test: every local variable and parameter gets another name.  A rule whose verdict changes looks variables up by name instead of by what they hold.
                 local = set(p_['d'] for p_ in self.params if p_.get('d') is not None)
